@@ -1104,6 +1104,8 @@ class Expr:
             "remainder",
             "len",
             "dtype_index",
+            "atan2",
+            "is_finite",
         }:
             return False
         elif self.kind in {"complex", "conjugate"}:
@@ -1139,6 +1141,10 @@ class Expr:
             "sign",
             "upcast",
             "downcast",
+            "copysign",
+            "round",
+            "truncate",
+            "asin_acos_kernel",
         }:
             return self.operands[0].is_complex
         elif self.kind == "apply":
